@@ -219,7 +219,8 @@ def render_import(p, rnd):
     for k in order:
         for c in groups[k]:
             clines += cons_lines(p, c, rnd)
-    template = [ln + cm()] + [step + c for c in clines]
+    late = p.get("place", "def") == "mod"           # the constraint lines follow the last modification of the copy
+    template = [ln + cm()] + ([] if late else [step + c for c in clines])
     extra = rnd.random() < 0.4                      # a second, unconstrained node beside it
     if extra:
         template.append("other_t int = 5")
@@ -252,6 +253,8 @@ def render_import(p, rnd):
         path = name
     for j, m in enumerate(p["mods"]):
         lines.append(path + typed_part(p, m, rnd) + " = " + value_text(p, m, rnd, salt + j + 1) + cm())
+    if late:
+        lines += [step + c for c in clines]
     if rnd.random() < 0.3:
         lines.append("z_post int = 1")
     return {"text": "\n".join(lines) + "\n", "path": path, "bypath": None, "origpath": orig, "files": files, "text2": None}
